@@ -476,6 +476,103 @@ def r10_15(run, model):
     run.floor("numeric literal parse sites", len(sites), 8)
 
 
+def r10_17(run, model):
+    run.rule("R10.17", "checker and builder read a literal expression at one type: the later stages consume the TAST that tast_builder.rs builds "
+                       "from the hir again, with a fixed type per literal form (`1` is an int32, `1i64` an int64, ..); every place of the checker "
+                       "that takes such a literal form apart and range-checks it does so at that very type - a literal the checker validates at "
+                       "another type is accepted there and built as the builder's type, an out-of-range one as the fallback 0")
+    bx = model.fn("build_expr", TB_RS)
+    btype = {}
+    for m in S.find(bx.body, "Match"):
+        for arm in m["arms"]:
+            pt = S.norm_ws(run.facts.text(TB_RS, arm["pat"]["sp"]))
+            mm = re.fullmatch(r"hir::Expr::(E(?:U?Int|Float)\d*)\{value\}", pt)
+            if not mm:
+                continue
+            tys = set(re.findall(r"\bty:tast::Ty::(T\w+)", S.norm_ws(run.facts.text(TB_RS, arm["body"]["sp"]))))
+            if len(tys) == 1:
+                btype[mm.group(1)] = next(iter(tys))
+    if len(btype) < 10:
+        raise AnalysisIncomplete(f"build_expr: fixed types found for {sorted(btype)} only")
+    n = 0
+    occurrences = 0
+    for f in model.fns(CHECK):
+        if f.body is None:
+            continue
+        occurrences += len(re.findall(r"hir::Expr::E(?:U?Int|Float)\d*\{", S.norm_ws(run.facts.text(CHECK, f.body["sp"]))))
+        regions = []
+        for m in S.find(f.body, "Match"):
+            for arm in m["arms"]:
+                for v in re.findall(r"hir::Expr::(E(?:U?Int|Float)\d*)\{", S.norm_ws(run.facts.text(CHECK, arm["pat"]["sp"]))):
+                    regions.append((v, arm["body"]))
+        for l in S.find(f.body, "Local"):
+            for v in re.findall(r"hir::Expr::(E(?:U?Int|Float)\d*)\{", S.norm_ws(run.facts.text(CHECK, l["pat"]["sp"]))):
+                regions.append((v, f.body))
+        for l in S.find(f.body, "Let"):
+            for v in re.findall(r"hir::Expr::(E(?:U?Int|Float)\d*)\{", S.norm_ws(run.facts.text(CHECK, l["pat"]["sp"]))):
+                regions.append((v, f.body))
+        for c in S.walk(f.body):
+            if c["k"] == "Macro" and "hir::Expr::E" in S.norm_ws(run.facts.text(CHECK, c["sp"])):
+                for v in re.findall(r"hir::Expr::(E(?:U?Int|Float)\d*)\{", S.norm_ws(run.facts.text(CHECK, c["sp"]))):
+                    regions.append((v, f.body))
+        for v, region in regions:
+            n += 1
+            if v not in btype:
+                continue
+            lets = {}
+            for l in S.find(region, "Local"):
+                if l.get("init") is not None:
+                    for b in S.pat_bindings(l["pat"]):
+                        lets.setdefault(b, []).append(S.norm_ws(run.facts.text(CHECK, l["init"]["sp"])))
+            for c in S.walk(region):
+                if c["k"] != "MethodCall" or c["method"] not in ("parse_integer_literal_with_ty", "parse_float_literal_with_ty") or len(c["args"]) < 3:
+                    continue
+                t = re.sub(r"^&|\.clone\(\)$", "", S.norm_ws(run.facts.text(CHECK, c["args"][2]["sp"])))
+                srcs = lets.get(t, [t]) if re.fullmatch(r"\w+", t) else [t]
+                ok = all(x == "tast::Ty::" + btype[v] for x in srcs)
+                run.ob("R10.17", f"{f.name}|{v} is range-checked at the type it is built at", ok, site(CHECK, c["sp"]),
+                       f"checked at `{'`, `'.join(srcs)}`; tast_builder builds {v} as {btype[v]}",
+                       witness="n > 5000000000 with n: int64: the checker accepts the literal at int64, the builder parses it as an i32, fails and "
+                               "emits `n > 0`")
+    if n < occurrences:
+        raise AnalysisIncomplete(f"check.rs takes literal forms apart at {occurrences} places, {n} were understood")
+    run.floor("places of the checker that take a literal expression apart", n, 12)
+
+
+def r10_18(run, model):
+    run.rule("R10.18", "an operator is carried through the passes as itself: in every arm of the term-to-term passes that takes the operator of a "
+                       "unary or binary node, the builtin case rebuilds a node of the same kind with that operator - negation is not rewritten "
+                       "into a subtraction from zero (-0.0 and 0 - 0.0 differ in sign, and float32 rounding is per operation), nor any operator "
+                       "into another")
+    from rules import c01 as _c01
+    n = 0
+    for file in _c01.FILTER_FREE_FILES:
+        for f in model.fns(file):
+            if f.body is None:
+                continue
+            for m in S.find(f.body, "Match"):
+                for arm in m["arms"]:
+                    pt = S.norm_ws(run.facts.text(file, arm["pat"]["sp"]))
+                    mm = re.search(r"\b(EUnary|EBinary)\{op\b", pt)
+                    if not mm:
+                        continue
+                    kind = mm.group(1)
+                    other = "EBinary" if kind == "EUnary" else "EUnary"
+                    n += 1
+                    derived = {"op"}
+                    for l in S.find(arm["body"], "Local"):
+                        if l.get("init") is not None and S.idents(l["init"]) <= derived | {"clone"} and S.idents(l["init"]):
+                            derived |= set(S.pat_bindings(l["pat"]))
+                    same = [st for st in S.find(arm["body"], "Struct") if st["segs"][-1] == kind]
+                    cross = [st for st in S.find(arm["body"], "Struct") if st["segs"][-1] == other]
+                    okop = bool(same) and all(any(fl["name"] == "op" and S.idents(fl["expr"]) and S.idents(fl["expr"]) <= derived for fl in st["fields"]) for st in same)
+                    ok = okop and not cross
+                    run.ob("R10.18", f"{f.name}|{kind} is rebuilt with its own operator", ok, site(file, (cross[0] if cross else arm)["sp"]),
+                           (f"the arm builds a {other} node" if cross else "the operator field is not the matched operator" if not okop else f"{len(same)} {kind} node(s) carrying `op`"),
+                           witness="let z = 0.0; float64_to_string(-z) prints -0 ; lowered as 0 - z it prints 0")
+    run.floor("operator arms in the term-to-term passes", n, 10)
+
+
 def r10_16(run, model):
     """a loop body is unit: effect position (where the back end keeps calls only) never holds a value-producing operation such as a division
     (shared with C03 R03.14, the loop's children only)"""
@@ -502,6 +599,8 @@ def run(run, model):
     run.try_rule(r10_5, model)
     run.try_rule(r10_15, model)
     run.try_rule(r10_16, model)
+    run.try_rule(r10_17, model)
+    run.try_rule(r10_18, model)
     # the value of `a / b / c` and `a * b / c` depends on the associativity the parser gives * and / (shared with C11 R11.1)
     from rules import c11 as _c11
     run.try_rule(_c11.r11_1, model)
